@@ -31,7 +31,7 @@ RULE = ("Random grids of 2-12 daily/irregular timesteps of which ~85% carry an e
         "expanding. Non-trivial = fold strictly inside the grid with >= 2 valid starts or a refusal.")
 ASSUMPTIONS = ["the episode_length argument of reset() ('number of states') is not judged; the configured length is",
                "sampling_span cases only check membership, not reachability"]
-REQUIRED_CATS = ["sub-second-grid", "episode-length-with-fit-transformers", "decision-refused-then-resubmitted", "timesteps-re-added-after-environment-built", "latent-only-timestep", "events-added-then-rebuilt", "steps_delay:1", "steps_delay:2", "one-off-length-then-configured"]
+REQUIRED_CATS = ["falsy-fold-name", "sub-second-grid", "episode-length-with-fit-transformers", "decision-refused-then-resubmitted", "timesteps-re-added-after-environment-built", "latent-only-timestep", "events-added-then-rebuilt", "steps_delay:1", "steps_delay:2", "one-off-length-then-configured"]
 REQUIRED = ["C15:decisions-exact", "C15:start-valid", "C15:visits-contiguous", "C15:every-start-reachable", "C15:refused-when-none-fits",
             "C15:whole-fold", "C15:walk-forward"]
 TECHNIQUE = "runtime monitoring: visited timesteps (observer clock per call) compared with the fold's event-bearing steps; seeded reachability sweep"
@@ -138,8 +138,13 @@ def case(ctx, i, tier):
     i1 = rng.randint(i0, n - 1)
     j0 = rng.randint(0, n - 1)
     j1 = rng.randint(j0, n - 1)
-    folds = {"f1": [grid[i0], grid[i1]], "f2": [grid[j0], grid[j1]]}
-    fold = rng.choice(["f1", "f2"])
+    # fold names are the user's own dictionary keys: any hashable, e.g. the numbers of an enumerate()d walk-forward
+    # series (whose first is 0) or an empty label
+    n1, n2 = rng.choice([("f1", "f2"), ("f1", "f2"), (0, 1), (1, 0), ("", "x"), (0.0, "training-set")])
+    if not n1 or not n2:
+        ctx.cat("falsy-fold-name")
+    folds = {n1: [grid[i0], grid[i1]], n2: [grid[j0], grid[j1]]}
+    fold = rng.choice([n1, n2])
     s, e = folds[fold]
     steps = [g for g in bearing if s <= g <= e]
     span = rng.choice([None, None, 3])
